@@ -26,6 +26,25 @@ def _record_all(cases):
     return out
 
 
+def _balance(small, big, nchunks):
+    """Order the cases so that trace_validate's consecutive chunks carry equal numbers of cases and
+    the heavy corpus cases (weight = size of the input text) are spread over all chunks."""
+    n = len(small) + len(big)
+    size = (n + nchunks - 1) // nchunks
+    caps = [min(size, max(0, n - k * size)) for k in range(nchunks)]
+    buckets = [[] for _ in range(nchunks)]
+    load = [0] * nchunks
+    for c in sorted(big, key=lambda c: -(c["intext"]["len"] if c["kind"] == "lib" else 1)):
+        k = min((k for k in range(nchunks) if len(buckets[k]) < caps[k]), key=lambda k: load[k])
+        buckets[k].append(c)
+        load[k] += c["intext"]["len"] if c["kind"] == "lib" else 1
+    it = iter(small)
+    for k in range(nchunks):
+        while len(buckets[k]) < caps[k]:
+            buckets[k].append(next(it))
+    return [c for b in buckets for c in b]
+
+
 def _sample(c):
     s = {k: c[k] for k in ("id", "kind", "src", "op") if k in c}
     if c["kind"] == "lib":
@@ -69,13 +88,9 @@ def run(tier):
         big = _record_all(cor)
         mark("record")
         dom_job = pool.submit(ce.domain_check, gen, t["gen"], sc)
-        # corpus cases are heavy: spread them evenly over the chunks
-        allc = list(small)
-        step = max(1, len(allc) // max(1, len(big)))
-        for k, c in enumerate(big):
-            allc.insert(min(len(allc), k * (step + 1)), c)
-        res = lib.trace_validate("Trace_CifEdit", "Trace_CifEdit.cfg", allc, sc, xmx="4g",
-                                 chunks=8 if tier == "quick" else lib.NCPU)
+        nchunks = 8 if tier == "quick" else lib.NCPU
+        allc = _balance(small, big, nchunks)
+        res = lib.trace_validate("Trace_CifEdit", "Trace_CifEdit.cfg", allc, sc, xmx="4g", chunks=nchunks)
         rep.add_trace(res, {c["id"]: c for c in allc}, "C20")
         mark("trace_validate")
         dom_job.result()
